@@ -81,9 +81,45 @@ def replaceAll (old new s : Str) : Str :=
   if old.isEmpty then new ++ s.flatMap (fun c => c :: new)
   else replaceAllGo old new (s.length + 1) s
 
-/-- `redactFieldNamesFromPlanSummary` with replacement text `repl` -/
-def redactPlan (repl : Str) (ps : Str) : Str :=
-  if ps = sCOLLSCAN then ps
-  else (parsePlanSummary ps).foldl (fun result name => replaceAll name (hashName repl name) result) ps
+/-- strings.Replace(s, old, new, 1) for a non-empty `old` -/
+def replaceFirst (old new : Str) : Str → Str
+  | [] => []
+  | c :: r => if isPrefix old (c :: r) then new ++ (c :: r).drop old.length else c :: replaceFirst old new r
+
+/-- text from the first `:` on (empty when there is none) -/
+def fromColon : Str → Str
+  | [] => []
+  | c :: r => if c = ':' then c :: r else fromColon r
+
+/-- one `key : direction` member of an index specification: the key is replaced by its pseudonym
+    where it stands, spacing and direction are kept -/
+def redactIndexField (h : Str → Str) (field : Str) : Str :=
+  let key := trimSpace (beforeColon field)
+  if key.isEmpty then field
+  else replaceFirst key (h key) (beforeColon field) ++ fromColon field
+
+/-- the `{ ... }` body of one IXSCAN -/
+def redactIndexBody (h : Str → Str) (body : Str) : Str :=
+  intercalate [','] ((splitOn ',' body).map (redactIndexField h))
+
+/-- rewrite every non-overlapping leftmost match of `IXSCAN\s*\{([^}]+)\}` -/
+def redactIxscans (h : Str → Str) : Nat → Str → Str
+  | 0, s => s
+  | _ + 1, [] => []
+  | fuel + 1, c :: r =>
+    match matchIxscanHere (c :: r) with
+    | some (g, rest) =>
+      -- the matched text is  IXSCAN <spaces> { g } ; everything up to and including '{' is kept
+      let matchedLen := (c :: r).length - rest.length
+      let head := ((c :: r).take matchedLen)
+      let upToBrace := head.take (head.length - g.length - 1)
+      upToBrace ++ redactIndexBody h g ++ ['}'] ++ redactIxscans h fuel rest
+    | none => c :: redactIxscans h fuel r
+
+/-- `redactFieldNamesFromPlanSummary` with replacement text `repl` (after the in-place `fix:`) -/
+def redactPlanWith (h : Str → Str) (ps : Str) : Str :=
+  if ps = sCOLLSCAN then ps else redactIxscans h (ps.length + 1) ps
+
+def redactPlan (repl : Str) (ps : Str) : Str := redactPlanWith (hashName repl) ps
 
 end Anonymongo
